@@ -75,6 +75,16 @@ pub struct MMeth {
     pub ss: bool,
     pub req: String,
     pub resp: String,
+    /// index into CODECS: every manual method carries its own codec path
+    #[serde(default)]
+    pub codec: u8,
+}
+
+const CODECS: &[&str] = &["tonic::codec::ProstCodec", "crate::codec::JsonCodec", "super::Raw", "crate::r#type::Codec"];
+impl MMeth {
+    fn codec_path(&self) -> &'static str {
+        CODECS[self.codec as usize % CODECS.len()]
+    }
 }
 
 #[derive(Clone, Debug, Serialize, Deserialize, PartialEq)]
@@ -237,8 +247,9 @@ const RUST_METHOD_IDENTS: &[&str] = &[
 const RUST_TYPES: &[&str] = &["crate::Req", "crate::Resp", "super::Msg", "crate::pb::v1::Point", "Foo", "crate::Self_", "super::super::Empty", "crate::r#type::Thing"];
 
 fn manual() -> BoxedStrategy<Manual> {
-    let m = (proptest::sample::select(RUST_METHOD_IDENTS), method_name(), any::<bool>(), any::<bool>(), proptest::sample::select(RUST_TYPES), proptest::sample::select(RUST_TYPES))
-        .prop_map(|(rust, route, cs, ss, req, resp)| MMeth { rust: rust.to_string(), route, cs, ss, req: req.to_string(), resp: resp.to_string() });
+    let codec = prop_oneof![3 => Just(0u8), 2 => 0u8..4];
+    let m = (proptest::sample::select(RUST_METHOD_IDENTS), method_name(), any::<bool>(), any::<bool>(), proptest::sample::select(RUST_TYPES), proptest::sample::select(RUST_TYPES), codec)
+        .prop_map(|(rust, route, cs, ss, req, resp, codec)| MMeth { rust: rust.to_string(), route, cs, ss, req: req.to_string(), resp: resp.to_string(), codec });
     (
         proptest::sample::select(PACKAGES),
         proptest::collection::vec(word(), 1..=2).prop_map(|w| w.concat()),
@@ -286,6 +297,8 @@ pub fn strategy() -> BoxedStrategy<Case> {
 
 #[derive(Clone, Debug, PartialEq)]
 struct Expect {
+    /// the codec path of the method
+    codec: String,
     shape: &'static str,
     /// Proto: fully qualified proto type; Manual: the Rust path given to the builder
     req: String,
@@ -387,7 +400,7 @@ impl Program {
         for svc in &self.services {
             let full = full_service_name(&self.pkg, &svc.name, self.opts.emit_package);
             for m in &svc.methods {
-                map.insert(format!("/{}/{}", full, m.name), Expect { shape: shape_of(m.cs, m.ss), req: self.fq(m.req), resp: self.fq(m.resp) });
+                map.insert(format!("/{}/{}", full, m.name), Expect { codec: "tonic::codec::ProstCodec".into(), shape: shape_of(m.cs, m.ss), req: self.fq(m.req), resp: self.fq(m.resp) });
             }
             names.insert(full);
         }
@@ -401,7 +414,7 @@ impl Manual {
         let full = full_service_name(&self.pkg, ident, self.opts.emit_package);
         let mut map = BTreeMap::new();
         for m in &self.methods {
-            map.insert(format!("/{}/{}", full, m.route), Expect { shape: shape_of(m.cs, m.ss), req: squash(&m.req), resp: squash(&m.resp) });
+            map.insert(format!("/{}/{}", full, m.route), Expect { codec: squash(m.codec_path()), shape: shape_of(m.cs, m.ss), req: squash(&m.req), resp: squash(&m.resp) });
         }
         (map, [full].into_iter().collect())
     }
@@ -493,7 +506,7 @@ impl tonic_build::Method for OwnMethod<'_> {
         &self.0.route
     }
     fn codec_path(&self) -> &str {
-        "tonic::codec::ProstCodec"
+        self.0.codec_path()
     }
     fn client_streaming(&self) -> bool {
         self.0.cs
@@ -536,7 +549,7 @@ fn manual_service(m: &Manual) -> tonic_build::manual::Service {
             .route_name(&x.route)
             .input_type(&x.req)
             .output_type(&x.resp)
-            .codec_path("tonic::codec::ProstCodec")
+            .codec_path(x.codec_path())
             .comment("method");
         if x.cs {
             mb = mb.client_streaming();
@@ -650,6 +663,8 @@ struct BodyFacts {
     grpc_calls: Vec<String>,
     /// `<T as Trait>::method(..)` calls
     trait_calls: Vec<(String, String)>,
+    /// `let codec = <path>::default();`
+    codecs: Vec<String>,
     /// `impl tonic::server::XService<Req> for ..` found inside: (kind, Req, Response, call request type)
     service_impls: Vec<(String, String, Option<String>, Option<String>, Option<(bool, String)>)>,
     bad: Vec<String>,
@@ -679,6 +694,26 @@ impl<'ast> Visit<'ast> for BodyFacts {
             }
         }
         visit::visit_expr_call(self, c);
+    }
+    fn visit_local(&mut self, l: &'ast syn::Local) {
+        if let syn::Pat::Ident(pi) = &l.pat {
+            if pi.ident == "codec" {
+                match l.init.as_ref().map(|i| &*i.expr) {
+                    Some(syn::Expr::Call(c)) if c.args.is_empty() => match &*c.func {
+                        syn::Expr::Path(p) if p.qself.is_none() && p.path.segments.last().map(|s| s.ident == "default").unwrap_or(false) => {
+                            let mut path = p.path.clone();
+                            path.segments.pop();
+                            let path = path.segments.into_pairs().map(|x| x.into_value()).collect::<syn::punctuated::Punctuated<_, syn::Token![::]>>();
+                            let lead = if p.path.leading_colon.is_some() { "::" } else { "" };
+                            self.codecs.push(format!("{lead}{}", squash(&path.to_token_stream().to_string())));
+                        }
+                        _ => self.bad.push(format!("codec built by {}", ts(c))),
+                    },
+                    other => self.bad.push(format!("codec bound to {}", other.map(|e| ts(e)).unwrap_or_default())),
+                }
+            }
+        }
+        visit::visit_local(self, l);
     }
     fn visit_expr_method_call(&mut self, c: &'ast syn::ExprMethodCall) {
         let m = c.method.to_string();
@@ -725,6 +760,7 @@ impl<'ast> Visit<'ast> for BodyFacts {
 
 #[derive(Debug, Clone)]
 struct Side {
+    codec: String,
     ident: String,
     shape: String,
     req: String,
@@ -787,6 +823,8 @@ fn extract_client_fn(modname: &str, f: &syn::ImplItemFn) -> Result<Option<(Strin
     ensure!(facts.from_static.len() == 1, "C11/client-path-literal-count", "{here}: {} PathAndQuery::from_static calls", facts.from_static.len());
     ensure!(facts.inner_calls.len() == 1, "C11/client-call-count", "{here}: calls on self.inner: {:?}", facts.inner_calls);
     ensure!(facts.grpc_method.len() == 1, "C11/client-grpc-method-count", "{here}: {} GrpcMethod::new calls", facts.grpc_method.len());
+    ensure!(facts.codecs.len() == 1, "C11/client-codec-count", "{here}: codecs constructed: {:?}", facts.codecs);
+    let codec = facts.codecs[0].clone();
     let path = facts.from_static[0].clone();
     let shape = facts.inner_calls[0].clone();
     // the GrpcMethod extension travels with the call and must name the same service/method as the path
@@ -816,7 +854,7 @@ fn extract_client_fn(modname: &str, f: &syn::ImplItemFn) -> Result<Option<(Strin
         "{here}: signature is {} (request streaming {req_streaming}, response streaming {resp_streaming}) but body calls self.inner.{shape}",
         shape_of(req_streaming, resp_streaming)
     );
-    Ok(Some((path, Side { ident: name, shape, req, resp })))
+    Ok(Some((path, Side { codec, ident: name, shape, req, resp })))
 }
 
 fn extract_trait(t: &syn::ItemTrait, sm: &mut ServerMod) -> Result<(), Failure> {
@@ -886,6 +924,11 @@ fn extract_arm(modname: &str, lit: &str, body: &syn::Expr, sm: &ServerMod) -> Re
     ensure!(facts.grpc_calls.len() == 1, "C11/server-call-count", "{here}: grpc.<shape> calls: {:?}", facts.grpc_calls);
     ensure!(facts.service_impls.len() == 1, "C11/server-service-impl-count", "{here}: {} tonic::server::*Service impls", facts.service_impls.len());
     ensure!(facts.trait_calls.len() == 1, "C11/server-handler-call-count", "{here}: handler calls {:?}", facts.trait_calls);
+    if let Some(b) = facts.bad.first() {
+        return Err(fail("C11/server-unreadable", format!("{here}: {b}")));
+    }
+    ensure!(facts.codecs.len() == 1, "C11/server-codec-count", "{here}: codecs constructed: {:?}", facts.codecs);
+    let codec = facts.codecs[0].clone();
     let shape = facts.grpc_calls[0].clone();
     let (kind, req, response, response_stream, call_req) = facts.service_impls[0].clone();
     ensure!(kind == service_trait_of(&shape), "C11/server-arm-shape-inconsistent", "{here}: implements {kind} but calls grpc.{shape}");
@@ -909,7 +952,7 @@ fn extract_arm(modname: &str, lit: &str, body: &syn::Expr, sm: &ServerMod) -> Re
     };
     ensure!(item == (ss, resp.clone()), "C11/server-trait-signature", "{here}: handler {handler} returns (streaming={}, {}) but the arm encodes (streaming={ss}, {resp})", item.0, item.1);
     ensure!(response_stream.is_some() == ss, "C11/server-arm-shape-inconsistent", "{here}: ResponseStream {response_stream:?} for shape {shape}");
-    Ok(Side { ident: handler, shape, req, resp })
+    Ok(Side { codec, ident: handler, shape, req, resp })
 }
 
 fn extract_mod(m: &syn::ItemMod, ex: &mut Extracted) -> Result<(), Failure> {
@@ -1084,6 +1127,7 @@ fn judge(ex: &Extracted, want: &BTreeMap<String, Expect>, want_names: &BTreeSet<
         for (p, side) in &client_all {
             let w = &want[p];
             ensure!(side.shape == w.shape, "C11/client-shape-vs-descriptor", "{p}: client calls Grpc::{} but the descriptor says {}", side.shape, w.shape);
+            ensure!(side.codec == w.codec, "C11/client-codec-vs-descriptor", "{p}: client (de)serialises with {} but the method's codec is {}", side.codec, w.codec);
             ensure!(type_matches(&side.req, &w.req, proto), "C11/client-request-type-vs-descriptor", "{p}: client request type {} for {}", side.req, w.req);
             ensure!(type_matches(&side.resp, &w.resp, proto), "C11/client-response-type-vs-descriptor", "{p}: client response type {} for {}", side.resp, w.resp);
         }
@@ -1113,6 +1157,7 @@ fn judge(ex: &Extracted, want: &BTreeMap<String, Expect>, want_names: &BTreeSet<
         for (p, side) in &server_all {
             let w = &want[p];
             ensure!(side.shape == w.shape, "C11/server-shape-vs-descriptor", "{p}: server calls Grpc::{} but the descriptor says {}", side.shape, w.shape);
+            ensure!(side.codec == w.codec, "C11/server-codec-vs-descriptor", "{p}: server (de)serialises with {} but the method's codec is {}", side.codec, w.codec);
             ensure!(type_matches(&side.req, &w.req, proto), "C11/server-request-type-vs-descriptor", "{p}: server request type {} for {}", side.req, w.req);
             ensure!(type_matches(&side.resp, &w.resp, proto), "C11/server-response-type-vs-descriptor", "{p}: server response type {} for {}", side.resp, w.resp);
         }
@@ -1125,6 +1170,7 @@ fn judge(ex: &Extracted, want: &BTreeMap<String, Expect>, want_names: &BTreeSet<
         for (p, c) in &client_all {
             let s = server_all[p];
             ensure!(c.shape == s.shape, "C11/client-vs-server-shape", "{p}: client {} vs server {}", c.shape, s.shape);
+            ensure!(c.codec == s.codec, "C11/client-vs-server-codec", "{p}: client uses {} but the server uses {}", c.codec, s.codec);
             ensure!(c.req == s.req, "C11/client-vs-server-request-type", "{p}: client {} vs server {}", c.req, s.req);
             ensure!(c.resp == s.resp, "C11/client-vs-server-response-type", "{p}: client {} vs server {}", c.resp, s.resp);
             ensure!(c.ident == s.ident, "C11/client-vs-server-method-ident", "{p}: client method {} vs server handler {}", c.ident, s.ident);
@@ -1382,6 +1428,7 @@ fn run_manual(m: &Manual, o: &mut Outcome) -> Result<(), Failure> {
     o.label_if(m.via_builder, "manual_via_builder_files");
     o.label_if(m.methods.iter().any(|x| x.rust.starts_with("r#")), "manual_raw_ident");
     o.label_if(m.methods.iter().any(|x| is_keyword(&x.route)), "method_keyword");
+    o.label_if(m.methods.iter().map(|x| x.codec_path()).collect::<BTreeSet<_>>().len() > 1, "manual_codecs_differ_between_methods");
     // Rust name and route name are drawn independently: every such case has an "odd identifier"
     o.nontrivial = true;
     let texts = generate_manual(m)?;
@@ -1406,7 +1453,7 @@ impl Prop for C11 {
         }
     }
     fn rule() -> &'static str {
-        "program has >=2 methods of >=2 streaming kinds, or a keyword/odd identifier (underscore, digit, lower-case first letter, acronym; manual builder: route name drawn independently of the Rust name), or no/nested package; Regenerate counts when >=2 committed files were compared"
+        "program has >=2 methods of >=2 streaming kinds, or a keyword/odd identifier (underscore, digit, lower-case first letter, acronym; manual builder: route name drawn independently of the Rust name), or no/nested package; Regenerate counts when >=2 committed files were compared Manual methods carry one of four codec paths each: client and server construct exactly the method's codec."
     }
     fn assumptions() -> Vec<String> {
         vec![
